@@ -1,2 +1,199 @@
-/- C20 driver (stub until the model exists) -/
-def main : IO Unit := pure ()
+/- C20 driver: op lines in, observable lines out (same format as props/C20/harness.cpp). -/
+import TboxModel.Util
+import TboxModel.C20.Model
+open Tbox.Util Tbox.C20
+
+structure World where
+  wallMs : Nat := 1700000000000
+  monoMs : Nat := 0
+  cal : Calendar := {}
+  slots : List (Option Alarm) := [none, none, none, none]
+
+def World.env (w : World) : Env := { wallMs := w.wallMs, monoMs := w.monoMs, cal := w.cal }
+
+def maxWallMs : Nat := 4294967295999
+
+def slot? (s : String) : Option Nat := do
+  let i ← s.toNat?
+  if i < 4 then some i else none
+
+/-- mask token: characters 0/1/x, "-" = empty string -/
+def mask? (s : String) : Option (List Bool) :=
+  if s == "-" then some [] else
+  if s.length ≤ 9 ∧ s.toList.all (fun c => c == '0' || c == '1' || c == 'x') then some (s.toList.map (· == '1')) else none
+
+def bool? (s : String) : Option Bool :=
+  if s == "1" then some true else if s == "0" then some false else none
+
+def bounded? (s : String) (hi : Nat) : Option Nat := do
+  let n ← s.toNat?
+  if n ≤ hi then some n else none
+
+/-- special days: "-" or "day:0|1,day:0|1…" (first entry of a day wins) -/
+def specials? (s : String) : Option (List (Nat × Bool)) :=
+  if s == "-" then some [] else
+  (s.splitOn ",").mapM fun item =>
+    match item.splitOn ":" with
+    | [d, b] => do pure ((← bounded? d 100000), (← bool? b))
+    | _ => none
+
+def showNext : Option Nat → String
+  | some r => "P next=" ++ toString r
+  | none => "P next=none"
+
+def showSlot (e : Env) : Option Alarm → String
+  | none => "-"
+  | some a => match a.st with
+    | .none => "N"
+    | .inited => "I"
+    | .running => "R" ++ toString (remainSeconds a e)
+
+def stateLine (w : World) (ret : Bool) : String :=
+  "P ret=" ++ (if ret then "1" else "0") ++ " " ++ " ".intercalate (w.slots.map (showSlot w.env))
+
+def getSlot (w : World) (i : Nat) : Option Alarm := (w.slots.getD i none)
+def setSlot (w : World) (i : Nat) (a : Alarm) : World := { w with slots := w.slots.set i (some a) }
+
+def far : Nat := 4294967
+
+def armTags (before after : Alarm) (e : Env) : List String :=
+  if after.st = .running ∧ (before.st ≠ .running ∨ before.target ≠ after.target) then
+    let r := remainSeconds after e
+    [if r > far then "arm-far" else if r > 86400 then "arm-days" else "arm-near"]
+  else []
+
+/-- the loop pass after a clock change: every slot's timer is looked at; callback lines sorted by slot -/
+def pass (w : World) : World × List String × List String :=
+  let e := w.env
+  let rec go (i : Nat) (sl : List (Option Alarm)) : List (Option Alarm) × List String × List String :=
+    match sl with
+    | [] => ([], [], [])
+    | none :: rest => let (r, l, t) := go (i + 1) rest; (none :: r, l, t)
+    | some a :: rest =>
+      let (a', evs) := tick a e tickFuel
+      let lines := if a.hasCb then evs.map (fun p => "F " ++ toString i ++ " " ++ showSlot e (some p.2.2)) else []
+      let tags := evs.map (fun p => if e.sec < p.1 then "fire-early" else if e.sec > p.1 then "fire-late" else "fire-on-time")
+        ++ (if evs.length > 1 then ["fire-multi"] else [])
+        ++ (evs.flatMap fun p => if p.2.2.st = .running then (if remainSeconds p.2.2 e > far then ["rearm-far"] else ["rearm"]) else ["no-rearm"])
+      let (r, l, t) := go (i + 1) rest
+      (some a' :: r, lines ++ l, tags ++ t)
+  let (sl, lines, tags) := go 0 w.slots
+  ({ w with slots := sl }, lines, tags)
+
+def withTags (tags : List String) (lines : List String) : List String :=
+  (if tags.isEmpty then [] else ["B " ++ " ".intercalate tags.eraseDups]) ++ lines
+
+def clockOp (w : World) : World × List String :=
+  let (w', lines, tags) := pass w
+  (w', withTags tags (lines ++ [stateLine w' true]))
+
+def calUpdate (w : World) (cal : Calendar) : World × List String :=
+  let w1 := { w with cal := cal }
+  let e := w1.env
+  let sl := w1.slots.map (fun o => o.map (fun a => calendarChanged a e))
+  let tags := (w1.slots.zip sl).flatMap fun p => match p with
+    | (some a, some b) => (if a.subs > 0 then ["cal-refresh"] else []) ++ armTags { a with target := 0, st := .inited } b e
+    | _ => []
+  let w2 := { w1 with slots := sl }
+  (w2, withTags tags [stateLine w2 true])
+
+def scanTag (pfx : String) (t : Nat) : Option Nat → List String
+  | none => [pfx ++ "-none"]
+  | some r =>
+    let k := (r - t) / D
+    [pfx ++ (if r ≤ t then "-wrapped" else if k = 0 then "-within-24h" else if k < 8 then "-week" else if r - t > far then "-far" else "-weeks")]
+
+def stepWords (w : World) (ws : List String) : Option (World × List String) :=
+  match ws with
+  | ["wk", sod, m, t] => do
+      let sod ← bounded? sod 200000; let m ← mask? m; let t ← bounded? t (U32 - 1)
+      let (a, ok) := initAlarm (fresh .weekly) sod m true
+      if !ok then pure (w, ["B init-rejected", "P init=0"]) else
+      let r := nextWeekly a.sod a.mask t
+      pure (w, withTags (scanTag "wk" t r) [showNext r])
+  | ["os", sod, t] => do
+      let sod ← bounded? sod 200000; let t ← bounded? t (U32 - 1)
+      let (a, ok) := initAlarm (fresh .oneshot) sod [] true
+      if !ok then pure (w, ["B init-rejected", "P init=0"]) else
+      let r := nextOneshot a.sod t
+      pure (w, withTags (scanTag "os" t (some r)) [showNext (some r)])
+  | ["wd", sod, wd, cm, sp, t] => do
+      let sod ← bounded? sod 200000; let wd ← bool? wd; let cm ← bounded? cm 255
+      let sp ← specials? sp; let t ← bounded? t (U32 - 1)
+      let (a, ok) := initAlarm (fresh .workday) sod [] wd
+      if !ok then pure (w, ["B init-rejected", "P init=0"]) else
+      let r := nextWorkday a.sod { weekMask := cm, special := sp } a.wd t
+      pure (w, withTags (scanTag "wd" t r ++ (if sp.isEmpty then [] else ["wd-specials"])) [showNext r])
+  | ["new", i, k] => do
+      let i ← slot? i
+      let c ← (if k == "wk" then some Cls.weekly else if k == "os" then some Cls.oneshot else if k == "wd" then some Cls.workday else none)
+      if (getSlot w i).isSome then none else
+      let w' := setSlot w i (fresh c)
+      pure (w', [stateLine w' true])
+  | ["init", i, sod, m, wd] => do
+      let i ← slot? i; let sod ← intOfString? sod; let m ← mask? m; let wd ← bool? wd
+      if sod < -200000 ∨ sod > 200000 then none else
+      let a ← getSlot w i
+      let (a', ok) := initAlarm a sod m wd
+      let w' := setSlot w i a'
+      pure (w', withTags [if ok then "init-ok" else "init-rejected"] [stateLine w' ok])
+  | ["tz", i, m] => do
+      let i ← slot? i; let m ← intOfString? m
+      if m < -1440 ∨ m > 1440 then none else
+      let a ← getSlot w i
+      let w' := setSlot w i (setTimezone a m)
+      pure (w', [stateLine w' true])
+  | ["en", i] => do
+      let i ← slot? i; let a ← getSlot w i
+      let (a', ok) := enable a w.env
+      let w' := setSlot w i a'
+      pure (w', withTags ((if ok then "enable-ok" else if a.st = .inited then "enable-nomatch" else "enable-rejected") :: armTags a a' w.env)
+                 [stateLine w' ok])
+  | ["dis", i] => do
+      let i ← slot? i; let a ← getSlot w i
+      let (a', ok) := disable a
+      let w' := setSlot w i a'
+      pure (w', withTags [if ok then "disable-ok" else "disable-rejected"] [stateLine w' ok])
+  | ["rf", i] => do
+      let i ← slot? i; let a ← getSlot w i
+      let a' := refresh a w.env
+      let w' := setSlot w i a'
+      pure (w', withTags ((if a.st = .running then "refresh" else "refresh-noop") :: armTags { a with target := 0, st := .inited } a' w.env)
+                 [stateLine w' true])
+  | ["cl", i] => do
+      let i ← slot? i; let a ← getSlot w i
+      let w' := setSlot w i (cleanup a)
+      pure (w', [stateLine w' true])
+  | ["cb", i] => do
+      let i ← slot? i; let a ← getSlot w i
+      let w' := setSlot w i { a with hasCb := true }
+      pure (w', [stateLine w' true])
+  | ["calmask", m] => do
+      let m ← bounded? m 255
+      pure (calUpdate w { w.cal with weekMask := m })
+  | ["calsp", sp] => do
+      let sp ← specials? sp
+      pure (calUpdate w { w.cal with special := sp })
+  | ["adv", d] => do
+      let d ← bounded? d 40000000000
+      if w.wallMs + d > maxWallMs then none else
+      pure (clockOp { w with wallMs := w.wallMs + d, monoMs := w.monoMs + d })
+  | ["mono", d] => do
+      let d ← bounded? d 40000000000
+      pure (clockOp { w with monoMs := w.monoMs + d })
+  | ["wall", v] => do
+      let v ← bounded? v maxWallMs
+      pure (clockOp { w with wallMs := v })
+  | _ => none
+
+def stepLine (w : World) (line : String) : World × List String :=
+  let ws := words line
+  match ws with
+  | [] => (w, [])
+  | "case" :: _ => ({}, [line.trimAscii.toString])
+  | _ =>
+    match stepWords w ws with
+    | none => (w, ["bad-op"])
+    | some r => r
+
+def main : IO Unit := runDriver ({} : World) stepLine
